@@ -18,6 +18,12 @@ Writer/reader/engine AGREEMENT rules, decided from syntax trees (Python) and nar
   R7  entry points: EncodedLiteral ships base64(type._to_encoding(value)) and the parser decodes it with
       fromPythonTypeEncoding over an unframed stream; results come back through the same function and stream spec
   R8  strings: utf-8 on both sides, the length prefix counts encoded bytes
+  R9  purity: the result of every _convert_*_encoding method depends only on (parameters of the type, the bytes / value converted):
+      state that outlives the call is not read back unless it is a memo whose key contains every input of the remembered value
+R3 (writer side) is decided semantically: the statements that compute and write the missing bytes - with helper methods that receive
+the stream inlined - are evaluated by an own interpreter over a symbolic missingness vector for n = 0..17 slots and compared with the
+layout; R5 decides reachability of the n-d array bulk branch from the definitions its guard consults and, when live, the memory
+order of the bytes from a table of numpy idioms (declining outside the table).
 Does not decide: n-d array stride arithmetic, equality of decoded values.
 """
 from __future__ import annotations
@@ -201,12 +207,229 @@ def _resolve(fn: pf.FuncDef, e: ast.AST, depth: int = 4) -> ast.AST:
     return pf.resolve_expr(fn, e, depth)
 
 
+_TT_CACHE: Dict[int, W.TypeTables] = {}
+
+
+def _type_tables(m: pf.Module) -> W.TypeTables:
+    if id(m) not in _TT_CACHE:
+        _TT_CACHE[id(m)] = W.TypeTables(m)
+    return _TT_CACHE[id(m)]
+
+
+# ---- numpy memory-order table (n-d array bulk paths) -------------------------------------------------
+#
+# writer: which element order do the bytes handed to write_bytes have, relative to the logical array `value`?
+#   'C' row-major, 'F' column-major, 'mem' whatever the input's memory layout happens to be, None = idiom not in the table.
+
+_NP = ('np', 'numpy')
+
+
+def _kw(call: ast.Call, name: str, pos: Optional[int] = None) -> Optional[ast.AST]:
+    for k in call.keywords:
+        if k.arg == name:
+            return k.value
+    if pos is not None and len(call.args) > pos:
+        return call.args[pos]
+    return None
+
+
+def _order_lit(e: Optional[ast.AST], default: str) -> Optional[str]:
+    if e is None:
+        return default
+    if isinstance(e, ast.Constant) and isinstance(e.value, str) and e.value.upper() in ('C', 'F', 'A', 'K'):
+        return e.value.upper()
+    return None
+
+
+def _np_func(call: ast.Call) -> Optional[str]:
+    d = pf.dotted(call.func)
+    if d and '.' in d and d.split('.')[0] in _NP and d.count('.') == 1:
+        return d.split('.')[1]
+    return None
+
+
+class _Arr:
+    """logical array = value (flip False) or value transposed (flip True); layout = memory layout of that logical array; flat = element order if already 1-d"""
+
+    def __init__(self, flip=False, layout='any', flat=None):
+        self.flip, self.layout, self.flat = flip, layout, flat
+
+    def seq(self, order: str) -> Optional[str]:
+        """element order (relative to `value`) of serialising this array in numpy order `order`"""
+        if self.flat is not None:
+            return self.flat
+        if order in ('A', 'K'):
+            if self.layout == 'any':
+                return 'mem'
+            order = self.layout
+        rel = order
+        if self.flip:
+            rel = 'F' if order == 'C' else 'C'
+        return rel
+
+
+def _arr_of(fn: pf.FuncDef, e: ast.AST, value: str, depth: int = 8) -> Optional[_Arr]:
+    if depth <= 0:
+        return None
+    if isinstance(e, ast.Name):
+        if e.id == value:
+            return _Arr()
+        d = pf.single_def(fn, e.id)
+        return _arr_of(fn, d, value, depth - 1) if isinstance(d, ast.expr) else None
+    if isinstance(e, ast.Attribute) and e.attr == 'T':
+        a = _arr_of(fn, e.value, value, depth - 1)
+        if a is None or a.flat is not None:
+            return a
+        return _Arr(not a.flip, {'C': 'F', 'F': 'C'}.get(a.layout, 'any'))
+    if isinstance(e, ast.Call):
+        npf = _np_func(e)
+        if npf in ('ascontiguousarray', 'asfortranarray', 'asarray', 'array', 'require', 'asanyarray') and e.args:
+            a = _arr_of(fn, e.args[0], value, depth - 1)
+            if a is None or a.flat is not None:
+                return a
+            if npf == 'ascontiguousarray':
+                return _Arr(a.flip, 'C')
+            if npf == 'asfortranarray':
+                return _Arr(a.flip, 'F')
+            if npf == 'require':
+                return None
+            o = _order_lit(_kw(e, 'order'), 'K')
+            if o is None:
+                return None
+            return _Arr(a.flip, o if o in ('C', 'F') else a.layout)
+        if npf == 'transpose' and len(e.args) == 1 and not e.keywords:
+            return _arr_of(fn, ast.Attribute(value=e.args[0], attr='T', ctx=ast.Load()), value, depth)
+        if npf == 'ravel' and e.args:
+            a = _arr_of(fn, e.args[0], value, depth - 1)
+            o = _order_lit(_kw(e, 'order', 1), 'C')
+            return None if a is None or o is None else _Arr(False, 'C', a.seq(o))
+        if isinstance(e.func, ast.Attribute):
+            a = _arr_of(fn, e.func.value, value, depth - 1)
+            if a is None:
+                return None
+            m_ = e.func.attr
+            if m_ in ('astype', 'view'):
+                return a
+            if m_ == 'copy':
+                o = _order_lit(_kw(e, 'order', 0), 'C')
+                if o is None:
+                    return None
+                return a if a.flat is not None else _Arr(a.flip, o if o in ('C', 'F') else a.layout)
+            if m_ == 'transpose' and not e.args and not e.keywords:
+                return a if a.flat is not None else _Arr(not a.flip, {'C': 'F', 'F': 'C'}.get(a.layout, 'any'))
+            if m_ in ('flatten', 'ravel'):
+                o = _order_lit(_kw(e, 'order', 0), 'C')
+                return None if o is None else _Arr(False, 'C', a.seq(o))
+            if m_ == 'reshape' and e.args and W.const_int(e.args[0]) == -1 and len(e.args) == 1:
+                o = _order_lit(_kw(e, 'order'), 'C')
+                return None if o is None else _Arr(False, 'C', a.seq(o))
+    return None
+
+
+def bulk_write_order(fn: pf.FuncDef, e: ast.AST, value: str) -> Optional[str]:
+    """Element order of the bytes object `e` (argument of write_bytes) relative to `value`: 'C' | 'F' | 'mem' | None (not in the table)."""
+    e = pf.resolve_expr(fn, e, 4)
+    if isinstance(e, ast.Call) and pf.dotted(e.func) in ('bytes', 'memoryview', 'bytearray') and len(e.args) == 1 and not e.keywords:
+        return bulk_write_order(fn, e.args[0], value)
+    if isinstance(e, ast.Attribute) and e.attr == 'data':
+        a = _arr_of(fn, e.value, value)
+        if a is None:
+            return None
+        if a.flat is not None:
+            return a.flat
+        if a.layout == 'any':
+            return 'mem' if not a.flip else None
+        if a.layout == 'C':
+            return a.seq('C')
+        return None  # the buffer of a Fortran-ordered array is not C-contiguous: appending it to a bytearray is outside the table
+    if isinstance(e, ast.Call) and isinstance(e.func, ast.Attribute) and e.func.attr in ('tobytes', 'tostring'):
+        a = _arr_of(fn, e.func.value, value)
+        o = _order_lit(_kw(e, 'order', 0), 'C')
+        if a is None or o is None:
+            return None
+        return a.seq(o)
+    return None
+
+
+def bulk_read_order(fn: pf.FuncDef, e: ast.AST, shape_names: set, depth: int = 8) -> Optional[str]:
+    """Order in which the flat buffer is laid out into the returned n-d array: 'C' | 'F' | None (not in the table)."""
+    def rec(x: ast.AST, d: int) -> Optional[Tuple[str, bool]]:
+        """(kind, reversed_shape): kind 'flat' (1-d buffer view) | 'C' | 'F' (n-d array with that order relative to the wire sequence)"""
+        if d <= 0:
+            return None
+        if isinstance(x, ast.Name):
+            dd = pf.single_def(fn, x.id)
+            return rec(dd, d - 1) if isinstance(dd, ast.expr) else None
+        if isinstance(x, ast.Attribute) and x.attr == 'T':
+            r = rec(x.value, d - 1)
+            if r is None or r[0] == 'flat':
+                return r
+            return ({'C': 'F', 'F': 'C'}[r[0]], not r[1])
+        if isinstance(x, ast.Call):
+            npf = _np_func(x)
+            if npf == 'frombuffer':
+                return ('flat', False)
+            if npf == 'ndarray':
+                if _kw(x, 'buffer') is None or _kw(x, 'shape', 0) is None:
+                    return None
+                o = _order_lit(_kw(x, 'order'), 'C')
+                rev = _is_reversed_shape(_kw(x, 'shape', 0), shape_names)
+                if o not in ('C', 'F') or rev is None:
+                    return None
+                return (o, rev)
+            if npf == 'reshape' and len(x.args) >= 2:
+                r = rec(x.args[0], d - 1)
+                o = _order_lit(_kw(x, 'order', 2), 'C')
+                rev = _is_reversed_shape(x.args[1], shape_names)
+                if r is None or r[0] != 'flat' or o not in ('C', 'F') or rev is None:
+                    return None
+                return (o, rev)
+            if isinstance(x.func, ast.Attribute):
+                m_ = x.func.attr
+                if m_ in ('copy', 'astype', 'view') and _kw(x, 'order') is None:
+                    return rec(x.func.value, d - 1)
+                if m_ == 'transpose' and not x.args and not x.keywords:
+                    return rec(ast.Attribute(value=x.func.value, attr='T', ctx=ast.Load()), d)
+                if m_ == 'reshape' and x.args:
+                    r = rec(x.func.value, d - 1)
+                    o = _order_lit(_kw(x, 'order'), 'C')
+                    rev = _is_reversed_shape(x.args[0], shape_names) if len(x.args) == 1 else None
+                    if r is None or r[0] != 'flat' or o not in ('C', 'F') or rev is None:
+                        return None
+                    return (o, rev)
+        return None
+
+    r = rec(e, depth)
+    if r is None or r[0] == 'flat':
+        return None
+    kind, rev = r
+    if rev:
+        return None  # the result has the reversed shape: not the array that was sent
+    return kind
+
+
+def _is_reversed_shape(e: Optional[ast.AST], shape_names: set) -> Optional[bool]:
+    if e is None:
+        return None
+    if isinstance(e, ast.Name) and e.id in shape_names:
+        return False
+    if isinstance(e, ast.Call) and pf.dotted(e.func) in ('tuple', 'list') and len(e.args) == 1:
+        return _is_reversed_shape(e.args[0], shape_names)
+    if isinstance(e, ast.Subscript) and isinstance(e.value, ast.Name) and e.value.id in shape_names and pf.nsrc(e.slice) == '::-1':
+        return True
+    if isinstance(e, ast.Call) and pf.dotted(e.func) == 'reversed' and len(e.args) == 1 and isinstance(e.args[0], ast.Name) and e.args[0].id in shape_names:
+        return True
+    return None
+
+
 class Canon:
     def __init__(self, ctx: Ctx, m: pf.Module, cls: str, fn: pf.FuncDef, side: str):
         self.ctx, self.m, self.cls, self.fn, self.side = ctx, m, cls, fn, side
         self.ex = W.Extractor(m, cls, fn, side)
+        self.fn = self.ex.fn  # helpers that receive the stream are inlined: analyse what actually runs
         self.where = f'{cls}.{fn.name}'
         self.prog = self.ex.program()
+        self.tt = _type_tables(m)
         self.value = self.ex.value
         self.binds: Dict[str, str] = {}      # reader: name bound to a length prefix -> raw tag
         self.shape_names: set = set()        # reader: names bound to the per-dimension int64 loop
@@ -227,6 +450,8 @@ class Canon:
             return self.seq_tag(e.args[0])
         if t in FIELD_SEQS:
             return 'fields'
+        if isinstance(e, (ast.ListComp, ast.GeneratorExp)) and len(e.generators) == 1 and not e.generators[0].ifs:
+            return self.seq_tag(e.generators[0].iter)  # one item per element of the generator's domain
         if self.side == 'w':
             v = self.value
             if t in (v, f'{v}.items()', f'{v}.keys()', f'{v}.values()'):
@@ -335,8 +560,15 @@ class Canon:
                 out.append(self.bytes_item(it[1]))
             elif k == 'missing_w':
                 info = it[1]
-                self.facts.setdefault('missing_w', []).append(info)
-                out.append(('missing', self.count_tag(info['n'])))
+                msg, sources = W.check_missing_region(info)
+                self.facts.setdefault('missing_w', []).append((info, msg, sources))
+                if sources == {'value'} or (msg is not None and 'value' in sources):
+                    tag = f'len:{self.value}'
+                elif sources == {'fields'} or msg is not None:
+                    tag = 'fields'
+                else:
+                    self.fail(info['node'], f'cannot tell which sequence the missing bytes describe (sizes consulted: {sorted(sources)})')
+                out.append(('missing', tag))
             elif k == 'rec':
                 out.append(('rec', self.rec_target(it[1], it[2])))
                 self.facts.setdefault('recs', []).append(it)
@@ -376,9 +608,11 @@ class Canon:
             if isinstance(r, ast.Call) and isinstance(r.func, ast.Attribute) and r.func.attr == 'encode':
                 self.facts['codec_w'] = (r, arg)
                 return ('bytes', 'len:' + pf.nsrc(arg))
-            if pf.nsrc(r) == f'{self.value}.data':
+            order = bulk_write_order(self.fn, arg, self.value) if self.value else None
+            if order is not None:
+                self.facts['bulk_w'] = (order, info['node'], arg)
                 return ('bytes', 'rawdata')
-            self.fail(info['node'], f'cannot classify the bytes written `{pf.nsrc(arg)}`')
+            self.fail(info['node'], f'cannot classify the bytes written `{pf.nsrc(arg)}` (not an encoded string and not a numpy serialisation in the order table)')
         else:
             if isinstance(arg, ast.Name) and arg.id in self.binds:
                 self.facts['bytes_r'] = info
@@ -397,6 +631,18 @@ class Canon:
                     num = num.left
                 self.facts.setdefault('missing_r', []).append(dict(n=num, div=d, rounding=rounding, node=info['node'], bind=info['bind'], view=info['view']))
                 return ('missing', self.count_tag(num))
+            if info['bind'] and self._taints_a_branch(info['bind']):
+                # bytes whose content decides later branches: the missing bytes, with a count expression outside the recognised forms.
+                # Which sequence they describe (and whether the count is right) is decided by the symbolic evaluation of the decoder.
+                msg, sources, _ = self.reader_semantics()
+                tag = None
+                if 'value' in sources and len(set(self.binds.values())) == 1:
+                    tag = next(iter(self.binds.values()))
+                elif sources == {'fields'}:
+                    tag = 'fields'
+                if tag is not None:
+                    self.facts.setdefault('missing_r', []).append(dict(n=None, div=None, rounding='semantic', node=info['node'], bind=info['bind'], view=info['view']))
+                    return ('missing', tag)
             if isinstance(r, ast.BinOp) and isinstance(r.op, ast.Mult):
                 tags = []
                 for side_ in (r.left, r.right):
@@ -405,9 +651,43 @@ class Canon:
                     except AnalysisError:
                         tags.append(None)
                 if 'size' in tags:
+                    self.facts['bulk_r'] = info
                     return ('bytes', 'rawdata')
             self.fail(info['node'], f'cannot classify the byte count `{pf.nsrc(arg)}`')
         return ('raise',)
+
+    def tainted_by(self, names: set) -> set:
+        """names whose value is computed from `names` (transitively, flow-insensitive)"""
+        taint = set(names)
+        changed = True
+        while changed:
+            changed = False
+            for n in ast.walk(self.fn):
+                tgts: List[ast.AST] = []
+                val: Optional[ast.AST] = None
+                if isinstance(n, ast.Assign):
+                    tgts, val = list(n.targets), n.value
+                elif isinstance(n, (ast.AnnAssign, ast.AugAssign)) and n.value is not None:
+                    tgts, val = [n.target], n.value
+                elif isinstance(n, (ast.For, ast.comprehension)):
+                    tgts, val = [n.target], n.iter
+                if val is None or not any(isinstance(x, ast.Name) and x.id in taint for x in ast.walk(val)):
+                    continue
+                for t in tgts:
+                    for x in ast.walk(t):
+                        if isinstance(x, ast.Name) and x.id not in taint:
+                            taint.add(x.id)
+                            changed = True
+        return taint
+
+    def _taints_a_branch(self, name: str) -> bool:
+        taint = self.tainted_by({name})
+        return any(isinstance(n, (ast.If, ast.IfExp)) and any(isinstance(x, ast.Name) and x.id in taint for x in ast.walk(n.test)) for n in ast.walk(self.fn))
+
+    def reader_semantics(self) -> Tuple[Optional[str], set, int]:
+        if 'reader_semantics' not in self.facts:
+            self.facts['reader_semantics'] = W.check_missing_reader(self.m, self.cls, self.fn)
+        return self.facts['reader_semantics']
 
     def rec_target(self, target: ast.AST, info: dict) -> str:
         t = pf.nsrc(target)
@@ -458,11 +738,21 @@ class Canon:
                 self.fail(test, 'the missing branch of a lookup_bit test reads the byte stream')
             self.facts.setdefault('lookup_r', []).append((t, test))
             return [('present', self.items(present))]
+        if self.side == 'r' and self.facts.get('missing_r'):
+            # any other condition computed from the missing bytes (inline shifts, a helper, a list of flags): a presence test; the branch
+            # that reads the stream is the "present" one.  Whether it consults the right bit is decided by R3's symbolic evaluation.
+            taint = self.tainted_by({i_['bind'] for i_ in self.facts['missing_r'] if i_.get('bind')})
+            if any(isinstance(x, ast.Name) and x.id in taint for x in ast.walk(test)) and bool(then) != bool(orelse):
+                self.facts.setdefault('presence_r', []).append(test)
+                return [('present', self.items(then or orelse))]
         txt = pf.nsrc(test)
-        if txt in ('self.element_type in _numeric_types', 'is_numeric(self.element_type)', 'is_numeric(self._element_type)', 'type(self.element_type) in _numeric_types',
-                   'self.element_type.__class__ in _numeric_types'):
+        g = self.tt.guard(test)
+        if g is not None and g.subject_text in ('self.element_type', 'self._element_type'):
+            # a test on the element type of an n-d array selecting the raw-buffer path: which classes does it admit?
             self.facts['numeric_cond'] = test
-            return [('cond', 'numeric-fast-path', self.items(then), self.items(orelse))]
+            self.facts['numeric_guard'] = g
+            label = 'numeric-fast-path' + ('' if not g.admitted else ':' + ','.join(sorted(g.admitted)))
+            return [('cond', label, self.items(then), self.items(orelse))]
         if self.side == 'w' and txt in (f'{self.value}.size > 0', f'{self.value}.size != 0', f'{self.value}.size'):
             inner = self.items(then)
             if orelse:
@@ -482,6 +772,11 @@ class Canon:
                 self.fail(test, 'non-empty guard protects items whose size is not governed by the element count')
             self.facts['nonempty_guard'] = test
             return inner
+        # a condition that does not select a layout: both alternatives perform the same stream operations
+        a, b = self.items(then), self.items(orelse)
+        if a == b:
+            self.facts.setdefault('transparent_conds', []).append(test)
+            return a
         self.fail(test, f'unrecognised condition `{txt[:80]}` around stream operations')
         return []
 
@@ -572,6 +867,7 @@ def _python_side(ctx: Ctx, m: pf.Module, classes: Dict[str, ast.ClassDef]) -> Di
         else:
             ctx.bad('R2', cons, f'wire programs differ - {_first_diff(pw, pr)}. writer: {show_canon(pw)} | reader: {show_canon(pr)}', m.path, ms[FROM].lineno)
         canon[cname] = (pw, cw, cr)
+        cw.canon_cache, cr.canon_cache = pw, pr
         # presence test guards the component that is encoded, in the order of the missing bits
         for subj, present, test in cw.facts.get('present_w', []):
             recs = [it for it in W.flatten_prims(present) if it[0] == 'rec']
@@ -611,39 +907,27 @@ def _index_of_bit(ctx: Ctx, e: ast.AST, i: str, j: str) -> bool:
 def _r3(ctx: Ctx, m: pf.Module, canon: Dict[str, Tuple[List[tuple], Canon, Canon]]):
     n_w = n_r = 0
     for cname, (_, cw, cr) in canon.items():
-        for info in cw.facts.get('missing_w', []):
+        for info, msg, sources in cw.facts.get('missing_w', []):
             n_w += 1
             cons = f'{F}::{cname}.{TO}::missing-byte loop'
-            msg = []
-            if info['step'] != 8:
-                msg.append(f'the element counter advances by {info["step"]} per byte written (expected 8)')
-            if info['chunk'] != 8:
-                msg.append(f'each byte collects up to {info["chunk"]} elements (expected 8)')
-            if W.const_int(info['init']) != 0:
-                msg.append(f'the loop starts at element {pf.nsrc(info["init"])}')
-            if W.const_int(info['acc_init']) != 0:
-                msg.append(f'the byte accumulator starts at {pf.nsrc(info["acc_init"])}')
-            bit = info['bit']
-            if not (isinstance(bit, ast.BinOp) and isinstance(bit.op, ast.LShift) and W.const_int(bit.left) == 1 and pf.nsrc(bit.right) == info['j']):
-                msg.append(f'the bit set for element i+j is `{pf.nsrc(bit)}` (expected 1 << {info["j"]}, least-significant bit first)')
-            if info['write'] != 'write_byte':
-                msg.append(f'the accumulator is written with {info["write"]}')
-            # subject: value[i + j] | value[K[i + j]] with K the field-name list
-            subj = info['subject']
-            okidx = False
-            if isinstance(subj, ast.Subscript) and pf.nsrc(subj.value) == cw.value:
-                idx = subj.slice
-                if _index_of_bit(ctx, idx, info['i'], info['j']):
-                    okidx = True
-                elif isinstance(idx, ast.Subscript) and _index_of_bit(ctx, idx.slice, info['i'], info['j']):
-                    k = _resolve(cw.fn, idx.value)
-                    okidx = pf.nsrc(k) in FIELD_SEQS
-            ctx.need(okidx or isinstance(subj, ast.Subscript), f'{cname}.{TO}: missing-bit subject `{pf.nsrc(subj)}` unrecognised')
-            if not okidx:
-                msg.append(f'bit {info["j"]} of the byte starting at element {info["i"]} is taken from `{pf.nsrc(subj)}`, not from element {info["i"]} + {info["j"]}')
-            ctx.check(not msg, 'R3', cons, '; '.join(msg) + ': the engine (and the Python reader) look up element e at bit e % 8 of byte e // 8', m.path, info['node'].lineno,
-                      detail={'step': info['step'], 'chunk': info['chunk']})
-        for info, (lk, test) in zip(cr.facts.get('missing_r', []), cr.facts.get('lookup_r', [])):
+            via = (' (through helper ' + ', '.join(info['inlined']) + ')') if info.get('inlined') else ''
+            ctx.check(msg is None, 'R3', cons, f'the statements that pack the missing bits{via} do not produce the engine layout - {msg}', m.path, info['node'].lineno,
+                      detail={'decided': f'symbolic evaluation of the extracted statements for n = 0..{W.MAX_N} slots, all missingness vectors', 'ranges_over': sorted(sources),
+                              'helpers_inlined': info.get('inlined', [])})
+        sem_done = False
+        if cr.facts.get('missing_r'):
+            cons = f'{F}::{cname}.{FROM}::missing-bit addressing'
+            try:
+                smsg, ssrc, nrec = cr.reader_semantics()
+                sem_done = True
+            except AnalysisError as e_:
+                ctx.info(f'{F}::{cname}.{FROM}: symbolic evaluation of the decoder not possible ({e_}); falling back to the structural addressing check')
+            if sem_done:
+                n_r += 1
+                via = (' (through helper ' + ', '.join(cr.ex.inlined) + ')') if cr.ex.inlined else ''
+                ctx.check(smsg is None, 'R3', cons, f'the decoder{via} does not consult the missing bits as laid out - {smsg}', m.path, cr.facts['missing_r'][0]['node'].lineno,
+                          detail={'decided': f'symbolic evaluation of the extracted decoder for n = 0..{W.MAX_N} slots with symbolic missing bytes', 'ranges_over': sorted(ssrc)})
+        for info, (lk, test) in zip(cr.facts.get('missing_r', []) if not sem_done else [], cr.facts.get('lookup_r', [])):
             n_r += 1
             cons = f'{F}::{cname}.{FROM}::missing-bit addressing'
             msg = []
@@ -664,7 +948,7 @@ def _r3(ctx: Ctx, m: pf.Module, canon: Dict[str, Tuple[List[tuple], Canon, Canon
             # resolve through the two helper assignments inside the loop
             asg: Dict[str, List[ast.AST]] = {}
             guards: Dict[str, Optional[ast.expr]] = {}
-            par = m.parents()
+            par = {c_: p_ for p_ in ast.walk(cr.fn) for c_ in ast.iter_child_nodes(p_)}  # cr.fn may be a copy with helpers inlined
             for n in ast.walk(cr.fn):
                 if isinstance(n, ast.Assign) and len(n.targets) == 1 and isinstance(n.targets[0], ast.Name):
                     asg.setdefault(n.targets[0].id, []).append(n.value)
@@ -733,33 +1017,6 @@ def _r8(ctx: Ctx, m: pf.Module, canon: Dict[str, Tuple[List[tuple], Canon, Canon
               f'(e.g. len(value) counts characters, which differs from the UTF-8 byte count for non-ASCII text)', m.path, cw.fn.lineno)
 
 
-def _numeric_fast_path_dead(ctx: Ctx, m: pf.Module, classes: Dict[str, ast.ClassDef]) -> Optional[str]:
-    """`self.element_type in _numeric_types` is always False when _numeric_types is a set display of *class* names of this module and
-    HailType.__eq__ rejects non-instances, no subclass overrides __eq__/__hash__-based identity, and there is no metaclass."""
-    try:
-        s = m.global_assign('_numeric_types')
-    except AnalysisError:
-        return None
-    if not (isinstance(s, ast.Set) and all(isinstance(e, ast.Name) and e.id in classes for e in s.elts)):
-        return None
-    ht = m.cls('HailType')
-    if ht.keywords:
-        return None
-    ms = W.methods(ht)
-    if '__eq__' not in ms:
-        return None
-    b = W.body_wo_doc(ms['__eq__'])
-    other = W.param_names(ms['__eq__'])[1]
-    if not (len(b) == 1 and isinstance(b[0], ast.Return) and isinstance(b[0].value, ast.BoolOp) and isinstance(b[0].value.op, ast.And)
-            and pf.nsrc(b[0].value.values[0]) == f'isinstance({other}, HailType)'):
-        return None
-    for cn, c in classes.items():
-        if '__eq__' in W.methods(c) or c.keywords:
-            return None
-    return ('_numeric_types is a set of classes ' + pf.nsrc(s) + ' while element_type is an instance; HailType.__eq__ requires isinstance(other, HailType), '
-            'no subclass overrides __eq__, no metaclass: the membership test is always False')
-
-
 def _r5(ctx: Ctx, m: pf.Module, classes: Dict[str, ast.ClassDef], canon: Dict[str, Tuple[List[tuple], Canon, Canon]]):
     ctx.need('tndarray' in canon, 'anchor vanished: tndarray encoders')
     pw, cw, cr = canon['tndarray']
@@ -785,24 +1042,65 @@ def _r5(ctx: Ctx, m: pf.Module, classes: Dict[str, ast.ClassDef], canon: Dict[st
     ctx.need(rnode is not None, f'tndarray.{FROM}: result is not built with np.ndarray(shape=…, buffer=…)')
     ctx.check(rorder == 'F', 'R5', f'{F}::tndarray.{FROM}::element order',
               f'decoded elements are laid out in order {rorder!r}; the stream is column-major: every array with ndim >= 2 comes back transposed', m.path, rnode.lineno)
-    # raw-buffer fast path
-    has_fast = any(it[0] == 'cond' and it[1] == 'numeric-fast-path' for it in _flat(pw))
+    # raw-buffer (bulk) path: (a) is it reachable - decided from the definitions of the tables / predicates the guard consults;
+    # (b) if it is, the bytes must be in column-major order like the element-wise path and the engine (ENDArrayColumnMajor)
+    has_fast = any(it[0] == 'cond' and it[1].startswith('numeric-fast-path') for c in (cw, cr) for it in _flat(c.canon_cache))
     cons = f'{F}::tndarray::raw-buffer fast path'
     if not has_fast:
         ctx.ok('R5', cons, 'absent')
-    else:
-        why = _numeric_fast_path_dead(ctx, m, classes)
-        conds = {pf.nsrc(c.facts['numeric_cond']) for c in (cw, cr) if 'numeric_cond' in c.facts}
-        if conds != {'self.element_type in _numeric_types'}:
-            why = None  # some direction tests the element type in a way that can succeed
-        if why is not None:
-            ctx.ok('R5', cons, {'dead': why})
-            ctx.info(f'{F}::tndarray: the numeric raw-buffer fast path of _convert_to/from_encoding is dead code ({why}); if revived it would send C-ordered arrays '
-                     f'row-major, and the reader side multiplies the bound method `_byte_size` (missing call parentheses)')
+        return
+    problems: List[str] = []
+    facts: List[str] = []
+    line = cw.fn.lineno
+    for c, side in ((cw, 'writer'), (cr, 'reader')):
+        g = c.facts.get('numeric_guard')
+        if g is None:
+            continue
+        test = c.facts['numeric_cond']
+        if not g.admitted:
+            ctx.need(g.dead is not None, f'tndarray {side}: guard `{pf.nsrc(test)}` admits no class but no reason is known')
+            facts.append(f'{side}: bulk branch is dead - {g.dead}')
+            continue
+        line = test.lineno
+        adm = sorted(g.admitted)
+        if side == 'writer':
+            ctx.need('bulk_w' in c.facts, f'tndarray.{TO}: the live bulk branch under `{pf.nsrc(test)}` does not write one raw buffer')
+            order, node, arg = c.facts['bulk_w']
+            if order == 'F':
+                facts.append(f'writer: bulk branch live for {adm}, bytes `{pf.nsrc(arg)[:60]}` are column-major')
+            elif order == 'C':
+                problems.append(f'the bulk branch of tndarray.{TO} is live (`{pf.nsrc(test)}` admits {adm}) and writes `{pf.nsrc(arg)[:80]}`, which is row-major (numpy default order \'C\'), while the '
+                                f'element-wise path (np.nditer order=\'F\') and the engine (ENDArrayColumnMajor) are column-major: np.array([[1, 2], [3, 4]]) is sent as 1,2,3,4 and the engine builds [[1, 3], [2, 4]]')
+            else:
+                problems.append(f'the bulk branch of tndarray.{TO} is live (`{pf.nsrc(test)}` admits {adm}) and writes `{pf.nsrc(arg)[:80]}`, the array\'s memory buffer as it happens to be laid out: row-major for '
+                                f'C-ordered arrays (and a BufferError for non-contiguous ones), while the engine decodes column-major: np.array([[1, 2], [3, 4]]) arrives as [[1, 3], [2, 4]]')
         else:
-            ctx.bad('R5', cons, 'the numeric fast path is (or may be) live: it writes `value.data`, the array\'s memory buffer, which is row-major for C-ordered arrays and '
-                                'not available for non-contiguous ones, while the engine decodes column-major: np.array([[1, 2], [3, 4]]) arrives as [[1, 3], [2, 4]]',
-                    m.path, (cw.facts.get('numeric_cond') or cr.facts['numeric_cond']).lineno)
+            rets = [n for n in ast.walk(test_parent_if(c.fn, test)) if isinstance(n, ast.Return) and n.value is not None] if test_parent_if(c.fn, test) is not None else []
+            ctx.need(len(rets) >= 1, f'tndarray.{FROM}: the live bulk branch under `{pf.nsrc(test)}` returns nothing recognisable')
+            iff = test_parent_if(c.fn, test)
+            brets = [n for st in iff.body for n in ast.walk(st) if isinstance(n, ast.Return) and n.value is not None]
+            ctx.need(len(brets) == 1, f'tndarray.{FROM}: expected one return in the bulk branch')
+            order = bulk_read_order(c.fn, brets[0].value, c.shape_names)
+            ctx.need(order is not None, f'tndarray.{FROM}: cannot classify how `{pf.nsrc(brets[0].value)[:80]}` lays the buffer out (numpy idiom outside the order table)')
+            if order == 'F':
+                facts.append(f'reader: bulk branch live for {adm}, buffer laid out column-major')
+            else:
+                problems.append(f'the bulk branch of tndarray.{FROM} is live (`{pf.nsrc(test)}` admits {adm}) and rebuilds the array with `{pf.nsrc(brets[0].value)[:80]}`, i.e. row-major, while the engine '
+                                f'writes column-major: an engine result [[0, 1, 2], [3, 4, 5]] is decoded as [[0, 3, 1], [4, 2, 5]]')
+    if problems:
+        ctx.bad('R5', cons, ' | '.join(problems), m.path, line)
+    else:
+        ctx.ok('R5', cons, {'facts': facts})
+        for f_ in facts:
+            if 'dead' in f_:
+                ctx.info(f'{F}::tndarray: {f_}; if revived with the buffer it uses today it would send C-ordered arrays row-major')
+
+
+def test_parent_if(fn: pf.FuncDef, test: ast.AST) -> Optional[ast.If]:
+    for n in ast.walk(fn):
+        if isinstance(n, ast.If) and n.test is test:
+            return n
+    return None
 
 
 # --------------------------------------------------------------------------------------
@@ -926,7 +1224,7 @@ class PySigs:
             s = ('struct', 'FIELDS')
         elif len(p) == 2 and p[0] == ('loop', 'ndim', [('prim', 'i64')]):
             x = p[1]
-            if x[0] == 'cond' and x[1] == 'numeric-fast-path':
+            if x[0] == 'cond' and x[1].startswith('numeric-fast-path'):
                 self.ctx.need(len(x[3]) == 1, 'ndarray general branch has several items')
                 x = x[3][0]
             if x[0] == 'loop' and x[1] == 'size' and len(x[2]) == 1 and x[2][0][0] == 'rec':
@@ -1219,6 +1517,10 @@ def _r6(ctx: Ctx, m: pf.Module, classes: Dict[str, ast.ClassDef], canon: Dict[st
                   f'reader takes {sorted(rattr)} from the decoded struct, the representation has {fields}: ' +
                   (f'{sorted(set(rattr) - set(fields))} does not exist (AttributeError)' if set(rattr) - set(fields) else f'{sorted(set(fields) - set(rattr))} is dropped'),
                   m.path, ctor.lineno)
+        for prm_, ok_, what_ in W.type_params_passed(classes, cname, cr.fn, ctor, vc):
+            ctx.check(ok_, 'R6', f'{F}::{cname}.{FROM}::{vc.name}({prm_}=) comes from the type',
+                      f'{cname}.{FROM} builds the {vc.name} with {prm_} = {what_} instead of self.{prm_}: the bytes do not carry the {prm_}, so a value of {cname}<X> decodes with another {prm_}',
+                      m.path, ctor.lineno, detail={'param': prm_})
         eng_names = _engine_field_names(es, armname)
         ctx.need(eng_names is not None and len(eng_names) == len(fields), f'{ETYPE}: arm {armname} has no literal field list of length {len(fields)}')
         for i, f_ in enumerate(fields):
@@ -1323,6 +1625,46 @@ def _r7(ctx: Ctx, m: pf.Module):
               f'results are encoded with `{txt}`, not with EType.fromPythonTypeEncoding of the result type', repo_path(BACKSC), d.line)
 
 
+_PURITY_CONTROL = """
+class HailType(object):
+    pass
+class tprobe(HailType):
+    _seen = {}
+    def _convert_from_encoding(self, byte_reader, _should_freeze=False):
+        k = byte_reader.read_int32()
+        v = tprobe._seen.get(k)
+        if v is None:
+            v = (k, self.param)
+            tprobe._seen[k] = v
+        return v
+"""
+
+
+def _r9(ctx: Ctx, m: pf.Module, classes: Dict[str, ast.ClassDef]):
+    is_codec = lambda n: n in (TO, FROM, '_to_encoding', '_from_encoding')
+    findings, n_methods = W.codec_state(m, classes, is_codec)
+    ctx.need(n_methods >= 30, f'expected >= 30 binary converter methods, found {n_methods}')
+    flagged = set()
+    undecided = []
+    for f in findings:
+        if f.kind == 'violation':
+            ctx.bad('R9', f.construct, f.message, m.path, f.line, f.detail)
+            flagged.add(f.construct.split('::')[1])
+        elif f.kind == 'ok':
+            ctx.ok('R9', f.construct, f.message)
+        else:
+            undecided.append(f.message)
+    for cname, c in list(classes.items()) + [('HailType', m.cls('HailType'))]:
+        for nm in W.methods(c):
+            if is_codec(nm) and f'{cname}.{nm}' not in flagged:
+                ctx.ok('R9', f'{F}::{cname}.{nm}::pure', 'no state that outlives the call flows into the result')
+    cm = pf.Module('<control>', '<control>', _PURITY_CONTROL, ast.parse(_PURITY_CONTROL))
+    cf, _ = W.codec_state(cm, W.hail_type_classes(cm), is_codec)
+    ctx.need(any(f.kind == 'violation' and 'self.param' in f.message for f in cf), 'internal: purity analysis does not flag its positive control')
+    ctx.ok('R9', 'positive control: class-level memo keyed without a type parameter', 'flagged', nontrivial=False)
+    ctx.need(not undecided, undecided[0] if undecided else '')
+
+
 def run(ctx: Ctx) -> None:
     ctx.level = 'other'
     ctx.explanation = ('Wire programs of _convert_to_encoding/_convert_from_encoding of every HailType subclass are extracted from the AST and compared; the engine layout per type is '
@@ -1333,9 +1675,11 @@ def run(ctx: Ctx) -> None:
     ctx.rule('R3', 'missing bits: element e <-> bit e%8 of byte e//8, LSB first, ceil(n/8) bytes (writer idiom, reader addressing, lookup_bit)', 7)
     ctx.rule('R4', 'layout of each Python type == frozen layout of the EType chosen by fromPythonTypeEncoding; every encodable Python type has an arm', 16)
     ctx.rule('R5', 'ndarray: int64 shape header, column-major element order on both sides, raw-buffer fast path dead or absent', 4)
-    ctx.rule('R6', 'locus/interval: names written == representation fields == attributes read; attribute -> field -> constructor parameter and engine field name agree', 10)
+    ctx.rule('R6', 'locus/interval: names written == representation fields == attributes read; attribute -> field -> constructor parameter and engine field name agree; type parameters of the value that take part in its equality come from self', 11)
     ctx.rule('R7', 'entry points use _to_encoding/_from_encoding, base64, fromPythonTypeEncoding and an unframed stream on both sides', 8)
     ctx.rule('R8', 'strings are utf-8 on both sides and the int32 prefix counts the encoded bytes', 2)
+    ctx.rule('R9', 'purity: no binary converter reads back state that outlives the call unless it is a memo keyed by every input of the remembered value '
+                   '(decoded bytes and type parameters such as self.reference_genome)', 30)
     ctx.assume('values are well-typed (e.g. the rank of an ndarray value equals the ndim of its type; struct values have every field)')
     ctx.assume('frozen EType layouts: EArray/EUnsortedSet/EDictAsUnsortedArrayOfPairs = int32 n, ceil(n/8) missing bytes iff the element type is not required, present elements; '
                'EBaseStruct = one missing bit per non-required field then present fields; EBinary = int32 n + n bytes; ENDArrayColumnMajor = int64 per dimension + all elements')
@@ -1345,6 +1689,7 @@ def run(ctx: Ctx) -> None:
     ctx.need(len(classes) >= 20, f'expected >= 20 HailType subclasses in {F}, found {len(classes)}')
     ctx.unit('files', 12)
     ctx.unit('classes', len(classes))
+    _r9(ctx, m, classes)   # first: an established history dependence is reported even if a later, shape-dependent rule declines
     _r1(ctx)
     canon = _python_side(ctx, m, classes)
     r2_failed = {i['construct'].split('::')[1] for i in ctx.instances if i['rule'] == 'R2' and not i['holds']}
